@@ -214,6 +214,12 @@ def check_C03(world, hist, pred):
 
     def check(node, kind, children):
         if node.get("hook_failed") or node["id"] in cleanup_failed or node["status"] == "hook_error":
+            rec = pred.scen.get(node["id"]) if kind == "scenario" else None
+            if rec and rec.get("attempts", 1) > 1 and not dead and not rec.get("hook_failed") \
+                    and not rec.get("cleanup_failed") and not rec.get("step_hook_failed"):
+                # re-run: statuses depend only on the LATEST attempt, in which no hook failed
+                out.append(V("C03", "status-after-retry", "stale-hook-failure:%s" % node["status"],
+                             id=node["id"], attempts=rec.get("attempts"), hook_failed_flag=node.get("hook_failed")))
             return
         if dead and kind != "outline":
             # the model lost track of cleanups in this run: only the rules that do
@@ -527,5 +533,49 @@ def check_C13(world, hist, pred):
     return out
 
 
-CHECKS = {"C01": check_C01, "C02": check_C02, "C03": check_C03, "C09": check_C09,
+def check_C11_runs(world, hist, pred):
+    """Dispatch through the real Step.run: the definition chosen and the arguments received."""
+    out = []
+    if hist.get("escaped") or hist.get("config_error") or pred.dead:
+        return out
+    for sid, exp in sorted(pred.steps.items()):
+        for i, e in enumerate(exp):
+            ev = e.get("ev")
+            if ev is None or e.get("def") is None:
+                continue
+            if ev["name"] != e["def"]:
+                out.append(V("C11", "wrong-definition", "run:%s-instead-of-%s" % (_deftype(world, ev["name"]), _deftype(world, e["def"])),
+                             scen=sid, idx=i, text=ev.get("text"), chosen=ev["name"], model=e["def"]))
+                continue
+            ea = e.get("exp_args")
+            if ea is None:
+                continue
+            got = [ev.get("args"), ev.get("kwargs")]
+            if _norm(got) != _norm(ea):
+                out.append(V("C11", "args-mismatch", "run:%s" % _matcher(world, e["def"]), scen=sid, idx=i,
+                             text=ev.get("text"), received=got, model=ea))
+    # a converter fault makes the step an error (never calls the function)
+    return out
+
+
+def _norm(x):
+    import json as _j
+    return _j.dumps(x, sort_keys=True, default=repr)
+
+
+def _deftype(world, did):
+    for d in world["steplib"]["defs"]:
+        if d["id"] == did:
+            return d["type"]
+    return "?"
+
+
+def _matcher(world, did):
+    for d in world["steplib"]["defs"]:
+        if d["id"] == did:
+            return d["matcher"]
+    return "?"
+
+
+CHECKS = {"C11": check_C11_runs, "C01": check_C01, "C02": check_C02, "C03": check_C03, "C09": check_C09,
           "C10": check_C10, "C12": check_C12, "C13": check_C13}
